@@ -141,6 +141,7 @@ class Scenario:
                     elif p.suffix in ('.pgm',):
                         p.unlink()
                 dev.pgm(verbose=True)
+                self.exported = True
                 return 6, h60(tree_digest('.'), round(float(dev.fabrication_time), 9))
             if op == 'toolpath':
                 out = []
@@ -156,7 +157,9 @@ class Scenario:
                 wb = openpyxl.load_workbook('book.xlsx')
                 cells = [[c.value for c in row] for row in wb.active.iter_rows()]
                 # drop the time-stamped preamble cells (date of today is constant within a run; keep everything)
-                return 9, h60(cells)
+                # the sheet quotes device.fabrication_time, which pgm() computes: before / after the first export
+                # are two different (legitimate) observations
+                return (10 if getattr(self, 'exported', False) else 9), h60(cells)
         raise AssertionError(op)
 
 
